@@ -5,7 +5,8 @@
    Reading guide (Mirror.v).  [parent] = one node of a file opened in CG_MODE_MODIFY: the session mirror (one array of
    (name, id, payload) slots per child kind), the file's child list (one ordered list for all kinds) and the id counter.
    [run disp s ops] applies a history of OWrite kind name payload (create, or overwrite by name IN THE SAME SLOT while the
-   file re-creates the node AT THE END), ODelete name (cg_delete_node; [disp] says which dispatcher arm is taken for a node
+   file re-creates the node AT THE END), OUpdate kind name payload (cg_coord_write / cg_field_write ...: create, or rewrite
+   the existing DataArray_t node in place), ODelete name (cg_delete_node; [disp] says which dispatcher arm is taken for a node
    of a given kind and name) and OReopen (cg_close + cg_open: the arrays are rebuilt from the file, in file order).
    [view_session s k] is what cg_n* / cg_*_info / cg_*_read report for kind k now, [view_file s k] what they report
    after a fresh open; [i_run] applies the same history to the ideal tree (a finite map name -> (kind, payload)).
@@ -49,7 +50,7 @@ Print Assumptions C04_content_any_state.
       view and in the view after a fresh open (no sibling is altered, hidden, duplicated or removed). *)
 Theorem C04_frame : forall kok nok disp s t o,
   Inv kok s -> Rel s t -> disp_ok kok nok disp -> op_names_ok kok nok o = true ->
-  (match o with OWrite _ _ _ => snd (i_step t o) = 0 | _ => True end) ->
+  write_succeeds t o ->
   forall k' nm', op_name o <> Some nm' ->
     vlookup nm' (view_session (fst (step disp s o)) k') = vlookup nm' (view_session s k') /\
     vlookup nm' (view_file (fst (step disp s o)) k') = vlookup nm' (view_file s k').
@@ -162,8 +163,8 @@ Print Assumptions C04_content_current_tables.
 Example C04_sample_history :
   ops_ok (fun _ => true) (fun _ => true) sample_history /\ writes_ok [] sample_history /\
   hist_order_safe all_shift empty_parent sample_history = true /\
-  view_session (fst (run all_shift empty_parent sample_history)) K_SOL = [("B", 2); ("C", 30); ("E", 5)] /\
-  snd (run all_shift empty_parent sample_history) = [0; 0; 0; 0; 0; 0; 0; 0; 0; 1].
+  view_session (fst (run all_shift empty_parent sample_history)) K_SOL = [("B", 20); ("C", 30); ("E", 5)] /\
+  snd (run all_shift empty_parent sample_history) = [0; 0; 0; 0; 0; 0; 0; 0; 0; 1; 0].
 Proof. exact sample_history_ok. Qed.
 
 Example C04_zone_kinds_nonempty :
